@@ -19,7 +19,7 @@ CHECKS = {
    text="Seeded schedules of real threads over shared Refs to instrumented pooled and heap objects (tiny slabs so slabs are created, cached and deleted outside the lock during the run), with preemption at every AtomicCounter operation and Mutex lock/unlock; exactly-once release, never-early release, freshness and pool consistency are checked inside the objects and at the end. Exploration.",
    note=THRNOTE, technique="deterministic simulation: controlled scheduler over real threads, instrumented-object oracle"),
  "C11": dict(engine="thrsim", section="3 (C11)",
-   text="Seeded schedules of owner, extra senders and the internal thread of a real muscle Thread (both signalling mechanisms, default loop and own timed event loop, start with queued Messages, shutdown, restart); exactly-once/in-order logs, and a lost wake-up shows up as a detected deadlock. Exploration.",
+   text="Seeded schedules of owner, extra senders and the internal thread of a real muscle Thread (both signalling mechanisms, default loop and own select-first / timed event loops, owners that poll, select or are woken through a SocketCallbackMechanism, start with queued Messages and replies, failing socket creation, EINTR, spurious wake-ups, shutdown, restart); exactly-once/in-order logs, a no-lost-wake-up invariant at every scheduling point (a side asleep with a completed send queued) and a deadlock detector. Exploration.",
    note=THRNOTE, technique="deterministic simulation: controlled scheduler over real threads, sequence oracle + deadlock detector"),
  "C12": dict(engine="netsim/dgram", section="3 (C12)",
    text="Seeded simulation of 1-3 sending tunnel gateways and one receiver over a datagram network with per-packet loss, duplication, reordering (indexed systematically for <= 6 packets in flight, sampled beyond), would-blocks and sender restarts, MTU 17..9000, both tunnel types, zlib levels 0-9, with and without a slave gateway; every delivered Message must be byte-identical to a sent one of that source (a splice analysis names the two Messages otherwise), and fault-free runs must deliver exactly the sent sequences. Exploration.",
@@ -49,7 +49,7 @@ CHECKS = {
    text="Same harness; index-heavy histories; each client replays the index update log and its replica is compared with the real index at every quiescent point; index well-formedness after every processed command. Exploration.",
    note=SRVNOTE, technique="deterministic simulation: log-replay replica vs. real index at quiescence"),
  "C02": dict(engine="netsim/wire", section="3 (C02)",
-   text="Seeded hostile-transport simulation into every gateway input path (binary, templating, zlib, text, raw, SLIP, WebSocket, C mini gateway, both packet tunnels): a real sender's valid stream is rewritten (boundary values in every length/count/type word, flips, truncations incl. inside a consistently framed body, garbage, splices) and fed to a real receiver under a seeded chunk schedule, in an ASan+UBSan build with exact-size frame copies; oracle = no sanitizer report, no hang/no-progress loop, delivered Messages well-formed, receiver reusable after Reset(), allocation <= 256N+1MiB per N-byte frame. Exploration over the seeds run; scoped to parsers reachable through a transport.",
+   text="Seeded hostile-transport simulation into every gateway input path (binary, templating, zlib, text, raw, SLIP, WebSocket in both roles, C mini and micro gateways, both packet tunnels, the binary and plain-text gateways in packet mode): a real sender's valid stream is rewritten (boundary values in every length/count/type word, flips, truncations incl. inside a consistently framed body, garbage, splices) and fed to a real receiver under a seeded chunk schedule, in an ASan+UBSan build with exact-size frame copies; oracle = no sanitizer report, no hang/no-progress loop, delivered Messages well-formed, receiver reusable after Reset(), allocation <= 256N+1MiB per N-byte frame. Exploration over the seeds run; scoped to parsers reachable through a transport.",
    note="Trusts: ASan/UBSan as the memory-safety oracle (alignment checks off); uninitialised reads are not visible to them; the MicroMessage reader is sampled in 1 run in 300 only (its lack of bounds checks is known finding F27); direct calls of Message::Unflatten on caller-supplied buffers are out of scope (the C parsers are additionally called on exactly-sized copies of every well-framed body); not coverage-guided.",
    technique="deterministic simulation with fault injection: seeded structure-aware corruption/truncation/splicing of real gateway streams, fed under seeded segmentation to real receivers under ASan/UBSan with watchdog, reuse and allocation-bound oracles"),
  "C03": dict(engine="netsim/wire", section="3 (C03)",
